@@ -174,13 +174,22 @@ def cases(rng, tier):
     if tier != "quick":
         yield u._base("jacket", 0.015, 0.03, 400, 3300, start=20, stop=-16, rate=0.5)
         yield u._base("shelf", 0.02, 0.02, 300, 3400, dim="spatial_1D", start=10, stop=-12, rate=0.2)
-    # object histories: run, slower ramp (nucleates at a later saved step), run again
-    yield dict(u._base("shelf", 0.01, 0.04, 1000, 200, dim="spatial_1D"), kind="history",
-               programs=[dict(rate=0.5, t_tot=300)])
-    yield dict(u._base("shelf", 0.01, 0.04, 1000, 200), kind="history", programs=[dict(rate=0.5, t_tot=300)])
+    # cooling start exactly at T_eq in a tall vial: nodes that never moved sit exactly at T_m, the mask-multiplied
+    # terms of the code give inf*0 = NaN there and the run ends in "Solidification is not completed"; the model
+    # mirrors the multiplication (same exception class expected; nothing is reported, so no clause is evaluated)
+    yield u._base("shelf", 0.05, 0.1, 400, 5500, start=0.0, stop=-60, rate=0.5)
+    # object histories: run, then `S.opcond` replaced / edited, run again -- bounds against the CURRENT programme
+    b1 = u._base("shelf", 0.01, 0.04, 1000, 200, dim="spatial_1D")
+    b2 = u._base("shelf", 0.01, 0.04, 1000, 200)
+    yield dict(b1, kind="history", programs=[dict(rate=0.5, t_tot=300)])                 # nucleates later
+    yield dict(b2, kind="history", programs=[dict(rate=0.5, t_tot=300)])
+    yield dict(b1, kind="history", programs=[dict(start=2, rate=1, t_tot=200)])           # lower start temperature
+    yield dict(b2, kind="history", programs=[dict(start=1, rate=0.7, t_tot=250, holds=[[-10, 5]])])
     if tier != "quick":
         yield dict(u._base("VISF", 0.01, 0.04, 1000, 200, dim="spatial_1D"), kind="history",
-                   programs=[dict(rate=0.5, t_tot=300), dict(rate=0.7, t_tot=260)])
+                   programs=[dict(rate=0.5, t_tot=300), dict(start=3, rate=0.7, t_tot=260)])
+        yield dict(u._base("jacket", 0.015, 0.03, 1000, 350), kind="history",
+                   programs=[dict(start=0.5, stop=-70, t_tot=400)])
 
 
 def run_impl(case):
@@ -267,6 +276,8 @@ def predicates(case, impl):
 
 
 def classify(case, impl):
+    if case.get("start") == 0.0 and not case.get("kind"):
+        return ["start==T_eq", "raise=" + str(impl.get("raise"))]
     if case.get("kind") == "history":
         return ["kind=history", f"dim={case['dim']}"] + (["raise=" + impl["raise"]] if impl.get("raise") else [])
     tags = [f"dim={case['dim']}", f"config={case['config']}", "in-Stab" if in_stab(case) else "outside-Stab(Biot)"]
